@@ -77,6 +77,7 @@ type FuncContract struct {
 	ViewsUnchecked  bool // "views unchecked": Slice may describe a view that extends beyond its parent (Slice itself checks nothing)
 	Fresh           []string
 	Locals          []string
+	LoopSigs        []string
 	UseLemmas       []string
 	Instantiate2    []string // labels of lemmas instantiated inside loops
 	Instantiate     []string // "LABEL(e1, ..., en)": ground instances of induction lemmas assumed at entry
@@ -458,6 +459,9 @@ func parseFuncDirective(fc *FuncContract, word, rest, file string, line int) {
 	case "uses":
 		// uses lemma-label, ...: make the conclusion of an induction lemma available
 		fc.UseLemmas = append(fc.UseLemmas, splitNames(rest)...)
+	case "loopsigs":
+		// loopsigs h0 h1 ...: hash of every loop statement in source order when the contract was written
+		fc.LoopSigs = append(fc.LoopSigs, strings.Fields(rest)...)
 	case "locals":
 		// locals a, b, c: the locals the function declared, in source order, when the
 		// contract was written (lets the contract survive a renamed local)
